@@ -5,6 +5,7 @@ import (
 	"fmt"
 	"runtime"
 	"sort"
+	"sync"
 	"time"
 
 	"github.com/hashicorp/eventlogger"
@@ -66,6 +67,30 @@ func (w *World) DoSend(t string, cancelAt int, yield *rt.Rand, yieldPct int) *Se
 	o.CancelPt = tr.cancelledAtPoint
 	tr.mu.Unlock()
 	o.Cancelled = cancelAt == -1 || o.CancelPt != ""
+	return o
+}
+
+var sendCtrMu sync.Mutex
+
+// DoSendConcurrent is DoSend for use from several goroutines at once (never cancelled).
+func (w *World) DoSendConcurrent(t string, yield *rt.Rand, yieldPct int) *SendObs {
+	sendCtrMu.Lock()
+	sendCtr++
+	o := &SendObs{SendID: fmt.Sprintf("s%d", sendCtr), Type: t}
+	sendCtrMu.Unlock()
+	o.Payload = &Tok{S: o.SendID}
+	for _, p := range w.M.PipesOf(t) {
+		o.Expected = append(o.Expected, Simulate(p, o.SendID))
+	}
+	tr := &Trace{yield: yield, yieldPct: yieldPct}
+	o.Trace = tr
+	ctx := withTrace(context.Background(), tr)
+	o.T0 = time.Now()
+	o.Call = rt.Tick()
+	o.Status, o.Err = w.B.Send(ctx, eventlogger.EventType(t), o.Payload)
+	o.Ret = rt.Tick()
+	o.T1 = time.Now()
+	o.Returned = true
 	return o
 }
 
